@@ -285,7 +285,8 @@ Qed.
 (* correct_atomic_balance: whatever the linear solver returns (an oracle), the corrected reaction has
    reactant coefficient -1 because the method ends with _rescale; with C05_consumed it therefore converts
    exactly X of its reactant.  Nothing else in the store changes. *)
-Theorem C05_cab_normalised : forall mws s j d sol s', do_cab mws s j d sol = Ok s' ->
+Theorem C05_cab_normalised : forall mws s d n formula consts Aobs bobs sol s',
+  do_cab mws s d n formula consts Aobs bobs sol = Ok s' ->
   (hcell d < length (hp s))%nat ->
   normalised (as_rxn (hp s') d) /\ derived s' = derived s.
 Proof. exact cab_normalised_lemma. Qed.
